@@ -674,6 +674,26 @@ def gen_subquery():
         out.append(("subquery", tag, sel(T, [(TA, "c0"), (TB, "c1")], where=p), 2, pi % 2 == 0))
         out.append(("subquery", tag, sel(T, [(TA, "c0"), (TB, "c1"), (p, "c2")]), 2))
         out.append(("subquery", tag, sel(T, [(TA, "c0"), (TB, "c1")], where=("or", p, ("eq", TB, L(1)))), 2, False))
+    # several subquery predicates over the SAME left operand in one connector: each of them must survive the optimizer
+    # (a rule that keys connector operands by a rendering which leaves the subquery out merges them into one)
+    ub = sel(U, [(UB, "x")])
+    ub_f = sel(U, [(UB, "x")], where=("not", ("isnull", UB)))
+    same = [
+        ("two-not-in-same-operand", ("and", ("notinsub", TA, ua), ("notinsub", TA, ub_f))),
+        ("two-not-in-same-operand", ("and", ("notinsub", TA, ub_f), ("notinsub", TA, ua))),
+        ("two-not-in-same-operand", ("or", ("notinsub", TA, ua), ("notinsub", TA, ub_f))),
+        ("two-not-in-same-operand", ("and", ("notinsub", TA, ua), ("notinsub", TA, ub))),
+        ("two-in-same-operand", ("or", ("insub", TA, ua), ("insub", TA, ub))),
+        ("two-in-same-operand", ("and", ("insub", TA, ua), ("insub", TA, ub))),
+        ("two-in-same-operand-limit", ("or", ("insub", TA, sel(U, [(UA, "x")], limit=9)), ("insub", TA, sel(U, [(UB, "x")], limit=9)))),
+        ("in-and-not-in-same-operand", ("and", ("insub", TA, ua), ("notinsub", TA, ub_f))),
+        ("two-exists", ("and", ("exists", sel(U, [(L(1), "x")], where=("eq", UA, TA))), ("exists", sel(U, [(L(1), "x")], where=("eq", UB, TA))))),
+        ("two-any-same-operand", ("or", ("quant", "lt", "ANY", TA, ua), ("quant", "lt", "ANY", TA, ub))),
+        ("two-scalar-same-operand", ("and", ("gt", TA, ("scalar", sel(U, [(agg("MIN", UA), "x")]))), ("gt", TA, ("scalar", sel(U, [(agg("MIN", UB), "x")]))))),
+    ]
+    for pi, (tag, p) in enumerate(same):
+        out.append(("subquery", tag, sel(T, [(TA, "c0"), (TB, "c1")], where=p), 2, pi % 3 != 1))
+        out.append(("subquery", tag, sel(T, [(TA, "c0"), (TB, "c1"), (p, "c2")]), 2, False))
     scalars = [
         ("scalar-uncorrelated", ("scalar", sel(U, [(agg("MAX", UB), "x")]))),
         ("scalar-uncorrelated-count", ("scalar", sel(U, [(agg("COUNT", UA), "x")]))),
